@@ -87,7 +87,8 @@ SESSION_PROG = [
     # under memory pressure: collect, then pad string space so that exactly R% bytes stay free
     b'65 IF M%>0 THEN F=FRE(""): PAD$=STRING$(F-R%,"p")',
     b'66 S$=""',
-    b'70 MID$(A$,K%)=B$',
+    # (TM%: the new value is a temporary, not a variable)
+    b'70 IF TM% THEN MID$(A$,K%)=B$+N$ ELSE MID$(A$,K%)=B$',
     b'75 PAD$=""',
     b'80 IF G3% THEN F=FRE("")',
     b'90 E$=A$+Z$: T$=T$+"!"',
@@ -104,7 +105,7 @@ def body_session(h):
     impl = session.mk_impl(h, max_memory=8000) if h.params['tight'] else session.mk_impl(h)
     for line in SESSION_PROG:
         impl.execute(line)
-    impl.execute(b'L%=0:P%=0:K%=0:G0%=0:G1%=0:G3%=0:OK%=0:M%=0:R%=0:F=0:I%=0')
+    impl.execute(b'L%=0:P%=0:K%=0:G0%=0:G1%=0:G3%=0:OK%=0:M%=0:R%=0:F=0:I%=0:TM%=0')
     # every variable exists before memory is filled, so that only string space is needed afterwards
     impl.execute(b'Z$="":A$="":B$="":C$="":D$="":E$="":V$="":W$="":S$="":T$="":PAD$="":N$="":Q$="":U$="":O$=""')
     L = h.choice('L', [0, 2, 6])
@@ -112,7 +113,10 @@ def body_session(h):
     K = h.choice('K', [1, 4, 8])
     G0 = h.choice('G0', [0, 1])
     G1 = h.choice('G1', [0, 1])
-    R = h.choice('R', [3, 20]) if h.params['tight'] else 0
+    # (with a temporary as new value in line 70 three free bytes are legitimately too few: 12 then force
+    # the collection while the temporary is alive)
+    temp_rhs = bool(h.params['tight']) and h.params['tight'] % 20 == 0
+    R = h.choice('R', [12, 20] if temp_rhs else [3, 20]) if h.params['tight'] else 0
     G3 = h.choice('G3', [0, 1])
     s = h.bytes('s', 6)
     t = h.bytes('t', 3)
@@ -120,7 +124,8 @@ def body_session(h):
     impl.set_variable(b'T$', t)
     impl.execute(b'L%%=%d:P%%=%d:K%%=%d:G0%%=%d:G1%%=%d:G3%%=%d:R%%=%d' % (L, P, K, G0, G1, G3, R))
     if h.params['tight']:
-        impl.execute(b'M%%=%d' % h.params['tight'])
+        # (every second memory-pressure case assigns a temporary in line 70)
+        impl.execute(b'M%%=%d: TM%%=%d' % (h.params['tight'], 1 if h.params['tight'] % 20 == 0 else 0))
         for line in FILL:
             impl.execute(line)
     res = h.call(impl.execute, b'GOTO 10')
